@@ -8,6 +8,7 @@ package go9p
 
 import (
 	"fmt"
+	"io"
 	"log"
 	"net"
 	"sync"
@@ -148,6 +149,9 @@ func (clnt *Clnt) recv() {
 
 		n, oerr := clnt.conn.Read(buf[pos:])
 		if oerr != nil || n == 0 {
+			if oerr == nil {
+				oerr = io.EOF
+			}
 			err = &Error{oerr.Error(), EIO}
 			clnt.Lock()
 			clnt.err = err
@@ -158,6 +162,14 @@ func (clnt *Clnt) recv() {
 		pos += n
 		for pos > 4 {
 			sz, _ := Gint32(buf)
+			if sz > atomic.LoadUint32(&clnt.Msize) {
+				// no reply may be longer than msize: do not wait for it, let alone buffer it
+				clnt.Lock()
+				clnt.err = &Error{"invalid frame size", EINVAL}
+				_ = clnt.conn.Close()
+				clnt.Unlock()
+				goto closed
+			}
 			if pos < int(sz) {
 				if len(buf) < int(sz) {
 					b := make([]byte, atomic.LoadUint32(&clnt.Msize)*8)
